@@ -17,6 +17,7 @@ def opRuns (C K : Nat) : List String → Option (List Run × List String)
   | "Q" :: _ :: rest => some ([], rest)
   | "S" :: b :: _mode :: l :: rest => some (stripeRuns (Backend.ofString b) (parseNat! l), rest)
   | "N" :: _ :: _ :: rest => some ([], rest)
+  | "R" :: _ :: rest => some ([], rest)
   | "W" :: _ :: rest => some ([], rest)
   | "P" :: _ :: rest => some ([], rest)
   | "G" :: rest => some ([], rest)
